@@ -7,6 +7,7 @@ import (
 	"go/token"
 	"go/types"
 	"os"
+	"runtime"
 	"sort"
 	"strings"
 	"sync"
@@ -375,9 +376,18 @@ func (i *interpreter) runPath(it workItem) {
 				// fine
 			case threadKill:
 			default:
-				// an unrecovered panic of the target is a failed assertion
+				// an unrecovered panic of the target (an explicit panic, or a run-time error of an
+				// operation the interpreter performed on the target's behalf) is a failed assertion;
+				// anything else is a limitation or fault of the interpreter itself: inconclusive
+				_, isTarget := r.(targetPanic)
+				_, isRuntime := r.(runtime.Error)
+				if !isTarget && !isRuntime {
+					outcome = "inconclusive"
+					abortReason = "interpreter: " + panicString(r)
+					break
+				}
 				msg := panicString(r)
-				if _, isTarget := r.(targetPanic); !isTarget {
+				if !isTarget {
 					msg += "\n" + shortStack()
 				}
 				i.reportViolation("panic", msg)
